@@ -316,6 +316,64 @@ def run_families(ctx, n):
                 globals().pop(nme, None)
 
 
+def run_format_histories(ctx, n):
+    """to_dict(dialect=D) must not share containers whatever format methods were called with D before
+    (the format mixins' own dialects carry no_copy_collections; their per-dialect packers are kept in
+    per-format caches): histories of calls over (format method | to_dict) x (dialect | none)"""
+    from mashumaro.config import ADD_DIALECT_SUPPORT, BaseConfig
+    from mashumaro.dialect import Dialect
+
+    mixins = []
+    try:
+        from mashumaro.mixins.orjson import DataClassORJSONMixin
+
+        mixins.append((DataClassORJSONMixin, "to_jsonb"))
+    except Exception:  # noqa
+        pass
+    try:
+        from mashumaro.mixins.msgpack import DataClassMessagePackMixin
+
+        mixins.append((DataClassMessagePackMixin, "to_msgpack"))
+    except Exception:  # noqa
+        pass
+    if not mixins:
+        return
+    rng = ctx.rng
+    for i in range(n):
+        mixin, fmeth = mixins[i % len(mixins)]
+        uid = f"h18_{ctx.evaluations}_{i}"
+        names = []
+
+        def mkc(name, bases, ns):
+            c = type(name, bases, ns)
+            c.__module__ = __name__
+            globals()[name] = c
+            names.append(name)
+            return dataclasses.dataclass(c)
+
+        try:
+            cfg = type("Config", (BaseConfig,), {"code_generation_options": [ADD_DIALECT_SUPPORT]})
+            Nested = mkc(f"HN_{uid}", (mixin,), {"__annotations__": {"xs": typing.List[int]}, "Config": cfg})
+            Top = mkc(f"HT_{uid}", (mixin,), {"__annotations__": {"tags": typing.List[str], "attrs": typing.Dict[str, int], "inner": Nested}, "Config": cfg})
+            dialects = [type(f"HD{k}_{uid}", (Dialect,), {}) for k in range(2)]
+            obj = Top(tags=["a"], attrs={"k": 1}, inner=Nested(xs=[1]))
+            hist = [(rng.choice([fmeth, "to_dict"]), rng.choice([None, 0, 1])) for _ in range(rng.randint(2, 7))]
+            case = {"format_history": {"mixin": mixin.__name__, "calls": hist}}
+            ctx.count(case, True, kind="format-history")
+            for k, (meth, d) in enumerate(hist):
+                kw = {"dialect": dialects[d]} if d is not None else {}
+                res = getattr(obj, meth)(**kw)
+                if meth == "to_dict":
+                    shared = [f for f in ("tags", "attrs") if res[f] is getattr(obj, f)] + (["inner.xs"] if res["inner"]["xs"] is obj.inner.xs else [])
+                    if shared:
+                        ctx.violation({**case, "call": k}, {"shared": shared}, "to_dict under a dialect without no_copy_collections shares no container with the object, whatever was called before",
+                                      "to_dict result shares containers after an earlier format call with the same dialect", lambda f: False)
+                        break
+        finally:
+            for nme in names:
+                globals().pop(nme, None)
+
+
 def gen_cases(ctx, n, depth):
     cases = []
     tries = 0
@@ -338,11 +396,14 @@ def run(ctx):
         k = min(500, n - done)
         run_cases(ctx, gen_cases(ctx, k, depth))
         done += k
-    for mode in (True, "newtype", "typealias"):
+    for mode in S.WRAP_MODES:
+        if mode == "abc":
+            continue   # no_copy_collections lists concrete annotation types: Sequence[int] is not `list`
         if ctx.time_left() > 60:
             with ctx.wrapped(mode):
                 run_cases(ctx, gen_cases(ctx, 400 if ctx.tier == "quick" else 5000, depth))
     run_families(ctx, 150 if ctx.tier == "quick" else 2500)
+    run_format_histories(ctx, 120 if ctx.tier == "quick" else 2000)
     ctx.assumptions += [
         "object identity is CPython's id(); non-mutation is monitored on the implementation only (a pure model cannot mutate)",
         "Any / pass_through positions hand objects on by reference in both directions (excepted by the statement) and are tracked by the model as references",
@@ -352,7 +413,9 @@ def run(ctx):
 def replay(ctx, body):
     ctx.lean_check("Mashu.Props.C18", THEOREMS, extra_targets=["Mashu.Dispatch"])
     c = body["case"]
-    if c and "family" in c:
+    if c and "format_history" in c:
+        run_format_histories(ctx, 120)
+    elif c and "family" in c:
         run_families(ctx, 200)
     elif c:
         run_cases(ctx, [(c["ty"], c["value"], c["no_copy"])])
